@@ -16,8 +16,8 @@ CLAIMED = {
          "One structural clause outside the generated code that the Raft invariants need: each of the 12 per-server state variables is bound, in all five archetype contexts of a server, to MakeLocalShared() of one LocalSharedManager created once per server (optionally wrapped by MakePersistent), no two variables alias one manager, and the shared cell is accessed under strict two-phase locking with a capacity-1 lock (RAFT-WIRING + LS-2PL + LS-CAP1). The invariants themselves (ElectionSafety, LogMatching, LeaderCompleteness, StateMachineSafety, LeaderAppendOnly) are NOT decided: they are spec-level facts; divergence of raftkvs.go from the model-checked spec is reported under C02.",
          "trusts go/types and go/cfg; the list of shared variables is read off the archetype parameters of raftkvs.tla and frozen in the checker",
          "DESIGN.md section 4, C08"),
- "C02": ("purely syntactic translation validation: MPCal front end + re-implemented normalisation on the spec side, inverted code-generator templates on the Go side, canonical token streams compared",
-         "For every checked-in spec/Go pair (23, discovered by the MakeMPCalJumpTable literal) each critical section, archetype/procedure table entry and operator definition of the generated Go is compared token by token with the canonical rendering of the MPCal source after the compiler's own normalisations (macro expansion, label flattening with synthetic gotos, while->if, multiple-assignment desugaring); every resource read must be used exactly once; every Goto/Call target must exist in the tables. An edit of generated Go (or of a spec) that changes an operator, operand, constant, index, target, statement or drops/adds a read is reported with the first differing token. It does not cover the PlusCal back end, regroupings that preserve token order, or the Scala compiler itself.",
+ "C02": ("purely syntactic translation validation: MPCal front end + re-implemented normalisation on the spec side, inverted code-generator templates on the Go side, fully grouped parse trees compared",
+         "For every checked-in spec/Go pair (23, discovered by the MakeMPCalJumpTable literal) each critical section, archetype/procedure table entry and operator definition of the generated Go is compared token by token with the canonical rendering of the MPCal source after the compiler's own normalisations (macro expansion, label flattening with synthetic gotos, while->if, multiple-assignment desugaring); every resource read must be used exactly once; every Goto/Call target must exist in the tables. An edit of generated Go (or of a spec) that changes an operator, operand, constant, index, target, statement or drops/adds a read is reported with the first differing token. It does not cover the PlusCal back end or the Scala compiler itself.",
          "trusts that checker/specmatch mirrors MPCalNormalizePass / MPCalGoCodegenPass (validated: all 533 obligations of the 23 pairs agree on the pinned tree) and the Scala symbol tables read by checker/scalatab",
          "DESIGN.md section 4, C02"),
  "C10": ("CFG rules on fairness.go and Run + a query over every generated critical-section literal (252) for choice ids, either-switch cases and with-selection bounds",
@@ -86,9 +86,26 @@ ADD = {
  "C18": " Round 2: oldValueHint deposits through the armed receiver and disarms it; the recorder gets &oldValue exactly when the receiver was consumed; VClock.Merge folds one operand into the other (VCLOCK-MERGE); VAL-DECISION rows for VClock.",
  "C19": " Round 2 (FD-WIRING): both setState functions store their argument, IsAlive answers with the recorded state exactly when one is recorded, the constructor starts the polling loop, a completed call's error is examined, ensureClient dials when needed.",
 }
-for k, v in ADD.items():
-    t = CLAIMED[k]
-    CLAIMED[k] = (t[0], t[1] + v, t[2], t[3])
+# rules added in the third round
+ADD3 = {
+ "C01": " Round 3: local variables store, witness and merge unconditionally (LOCAL-RES); first-touch snapshots are taken once per section (SNAPSHOT-ONCE); decision table of the Raft persistent-log resource (PLOG-DECISION); 2PC replies carry the committed value only (TPC-COMMITTED-ONLY); the hashmap's key list stays in step with its buckets, so map resources commit/abort every element (HASHMAP-KEYS); the Run loop's outcome dispatch is decided as decision rows. An obligation that cannot be decided fails the check.",
+ "C02": " Round 3: the comparison is on parse trees - spec expressions are parsed with the front end's own precedence-climbing scheme and the precedence table read from TLAMeta.scala, junction lists by bullet column, and both sides are rendered with every operator application explicitly grouped, so a regrouping that keeps token order ((r+1)*N vs r+1*N, Len(s)+1 vs Len(s+1)) is a mismatch while redundant parentheses and bullet/infix spellings are not; a lifted read must sit directly before the statement that uses it (MISPLACED-READ).",
+ "C04": " Round 3: a tail call never skips the callee's preamble (TailCall:no-shortcut); a ref parameter is resolved on every use (reads-pointer-every-time); LOCAL-RES.",
+ "C06": " Round 3: MB-DECISION (decoded message delivered exactly on success, backlog served exactly when non-empty, relaxed sender's sent flag, timed connection wrappers); every message returned by the relaxed mailbox is recorded as in progress.",
+ "C07": " Round 3: wrappers forward Abort/PreCommit/Commit/Close to the wrapped shared variable on every path (RES-FORWARD on-every-path, with a frozen table of legitimately conditional forwards); the bootstrap binds each shared variable to one manager per server in all archetypes (RAFT-WIRING).",
+ "C08": " Round 3: PLOG-DECISION for the persistent log resource the server archetypes write their log through.",
+ "C10": " Round 3: FC-DECISION, the decision table of the odometer (reset only on label change, truncate only on id/bound change, push only at the top, carry exactly when a digit reaches its bound).",
+ "C11": " Round 3: TPC-COMMITTED-ONLY - reject and GetState replies carry oldValue (the committed value), never the working copy.",
+ "C12": " Round 3: CRDT-DECISION - decision table of the CRDT value types (component-wise max / later timestamp, the clock-comparison verdict machine, add-wins and last-writer-wins visibility).",
+ "C13": " Round 3: field assignments to a reply are covered by CRDT-STABLE; SNAPSHOT-ONCE.",
+ "C17": " Round 3: HASHMAP-KEYS - every element a map resource created is enumerated by Keys() and therefore closed; the requestExit channel has capacity for the one request Stop makes while holding the state lock.",
+ "C18": " Round 3: TRACE-DECISION (recorder and clock plumbing on/off), LOCAL-RES, LEN-CLOCK (the mailbox-length view merges the clocks of exactly the backlog it counts and returns that clock).",
+ "C19": " Round 3: FD-LOCK-SHORT - the detector's and the monitor's state locks are held across field accesses only (no dial, RPC, sleep, wait, channel operation or unknown call before the release), so a read never waits for a dial timeout; a final state computed by a helper is read through the helper.",
+}
+for d in (ADD, ADD3):
+    for k, v in d.items():
+        t = CLAIMED[k]
+        CLAIMED[k] = (t[0], t[1] + v, t[2], t[3])
 
 def main():
     here = os.path.dirname(os.path.dirname(os.path.abspath(__file__)))
